@@ -16,11 +16,18 @@ def cls_of(kind):
     return m["rf24"].RF24 if kind == "full" else m["rf24_lite"].RF24
 
 
+ALT_RX0 = b"\x5C\x0F\xF1\xCE\x77"  # what a sender listens to on pipe 0 when it also receives
+
+PRE_OPS = ("tx_rx0", "tx_toggle", "tx_reenter", "rx_toggle", "rx_reenter", "tx_reopen_short")
+
+
 def configure(obj, kind, case):
     """apply the common link configuration through the public API"""
     obj.channel = case["channel"]
     obj.data_rate = case["rate"]
-    obj.address_length = case["aw"]
+    # "aw_first": the pipes are opened while another address width is in effect; the common
+    # width is assigned afterwards (Pair.__init__) without re-opening anything
+    obj.address_length = case.get("aw_first") or case["aw"]
     if kind == "full":
         if case["crc"] == 0 or not case["auto_ack"]:
             obj.auto_ack = False
@@ -93,6 +100,31 @@ class Pair:
         self.tx.open_tx_pipe(full_addr(case["pipe"])[: case["aw"]] if case.get("short_addr")
                              else full_addr(case["pipe"]))
         self.tx.listen = False
+        if case.get("aw_first"):
+            self.tx.address_length = case["aw"]
+            self.rx.address_length = case["aw"]
+        # a history of legal calls between set-up and traffic that leaves the link configured
+        # compatibly: role round trips, `with` re-entry (then the role is asserted again as the
+        # examples do), the sender also listening on a pipe-0 address of its own
+        for op in case.get("pre", ()):
+            if op == "tx_rx0" and tx_kind == "full":
+                self.tx.open_rx_pipe(0, ALT_RX0)
+            elif op == "tx_toggle":
+                self.tx.listen = True
+                self.rig.node.idle(200000) if not threaded else None
+                self.tx.listen = False
+            elif op == "tx_reenter" and hasattr(self.tx, "__enter__"):
+                self.tx.__enter__()
+                self.tx.listen = False
+            elif op == "rx_toggle":
+                self.rx.listen = False
+                self.rx.listen = True
+            elif op == "rx_reenter" and hasattr(self.rx, "__enter__"):
+                self.rx.__enter__()
+                self.rx.listen = True
+            elif op == "tx_reopen_short" and tx_kind == "full" and not case.get("aw_first"):
+                # the same TX address again, given with only the bytes the width uses
+                self.tx.open_tx_pipe(full_addr(case["pipe"])[: case["aw"]])
         self.rig.node.idle(300000) if not threaded else None
 
     def close(self):
